@@ -567,18 +567,19 @@ class Channel(ClosingContextManager):
 
         .. versionadded:: 1.1
         """
-        data = bytes()
         self.lock.acquire()
         try:
             old = self.combine_stderr
             self.combine_stderr = combine
             if combine and not old:
-                # copy old stderr buffer into primary buffer
+                # copy old stderr buffer into primary buffer (while holding
+                # the lock, so stderr data arriving right now, which already
+                # goes to the primary buffer, cannot overtake it)
                 data = self.in_stderr_buffer.empty()
+                if len(data) > 0:
+                    self._feed(data)
         finally:
             self.lock.release()
-        if len(data) > 0:
-            self._feed(data)
         return old
 
     # ...socket API...
@@ -1052,10 +1053,15 @@ class Channel(ClosingContextManager):
                 ERROR, "unknown extended_data type {}; discarding".format(code)
             )
             return
-        if self.combine_stderr:
-            self._feed(s)
-        else:
-            self.in_stderr_buffer.feed(s)
+        # (under the lock: see set_combine_stderr)
+        self.lock.acquire()
+        try:
+            if self.combine_stderr:
+                self._feed(s)
+            else:
+                self.in_stderr_buffer.feed(s)
+        finally:
+            self.lock.release()
 
     def _window_adjust(self, m):
         nbytes = m.get_int()
